@@ -16,6 +16,7 @@ ASSUMPTIONS = ["reference model vf/ref.py (DP cross-checked against brute force 
                "enumeration); the claim is about the model the library builds and decodes",
                "dyadic penalties: exact comparisons", "CBC is exact on <= 150 binaries"]
 SUMMARY_KEYS = ["runs", "ilp_runs", "all_optima_cases", "all_optima_multi", "models_checked"]
+THOROUGH_SCALE = 3
 CRASH_IS_VIOLATION = False
 TIMEOUT = {"quick": 900, "thorough": 7200}
 A_CONFIGS = ["Pulp", "Exact", "ExactNoOpt"]
